@@ -13,7 +13,9 @@ META = {
             'from the permutation theorem (the position of a failing k-th read is itself order dependent).',
 }
 THEOREMS = ['Scalibr.Walk.C08_cmp_order', 'Scalibr.Walk.C08_sorted', 'Scalibr.Walk.C08_perm_spec', 'Scalibr.Walk.C08_perm_scan', 'Scalibr.Walk.C08_roots',
-            'Scalibr.Walk.mustFrom_permute', 'Scalibr.isort_eq_of_perm', 'Scalibr.ltBytes_strictTotal', 'Scalibr.prodLt_strictTotal']
+            'Scalibr.Walk.mustFrom_permute', 'Scalibr.isort_eq_of_perm', 'Scalibr.ltBytes_strictTotal', 'Scalibr.prodLt_strictTotal',
+            'Scalibr.Walk.C08_perm_scan_roots_partial', 'Scalibr.Walk.C08_perm_scan_paths_partial', 'Scalibr.Walk.C08_perm_needs_noReadFaults',
+            'Scalibr.Walk.C08_perm_paths_needs_distinct', 'Scalibr.Walk.C08_no_dup', 'Scalibr.Walk.C08_no_dup_calls']
 
 
 def run(ctx):
